@@ -31,8 +31,8 @@ claimed = {
  "C09": ("DESIGN.md §4 C09", "Within the stated bounds the solver shows for every symbolic input (levels, ID bytes, operation choice) that the topic ordering comparator is a strict weak order refining level order, and that one arbitrary update of an arbitrary valid topic keeps sorted/MaxLevel/EventStates/previous-state consistent (inductive step, so histories of any length)."),
 }
 NA = {
- "C07": "graceful stop/drain is a property of goroutine interleavings, timers and blocked senders at the instant of stop; it has no sequential kernel and this family (solver over data, no schedule exploration) cannot encode it within reach (DESIGN.md §6)",
- "C17": "scheduler guarantees (exactly once, never concurrently, promptly) are schedule/timer properties of a goroutine-driven loop with a mock clock and a generated cron library; not encodable by bounded symbolic execution of data paths (DESIGN.md §6)",
+ "C07": "graceful stop/drain is a property of the relative timing of node goroutines, edge buffers, tickers and blocked senders across a whole executing task at the instant of stop; it has no sequential kernel, the solver has nothing to decide in that schedule space, and the engine's bounded preemption (lock points, blocking points of small harnesses) cannot cover it meaningfully (DESIGN.md §8)",
+ "C17": "scheduler guarantees (exactly once, in order, never concurrently, promptly) are schedule/timer properties of a timer-driven loop with per-ID worker goroutines, a mock clock that itself uses goroutines and sleeps, and a generated cron library; not encodable by bounded symbolic execution of data paths, and Item.Less alone would be a token check (DESIGN.md §8)",
 }
 checks = []
 for p in props:
